@@ -4,6 +4,7 @@ import (
 	"bytes"
 	"encoding/json"
 	"fmt"
+	"io"
 	"time"
 
 	"github.com/brutella/hc/util"
@@ -93,7 +94,18 @@ func c16Sets(c *fw.Ctx, cas c16Case) {
 			perTag[byte(t)] = append(perTag[byte(t)], v...)
 			cls += lenClass(cas.Lens[i]) + ","
 		}
-		out = cont.BytesBuffer().Bytes()
+		// serialising is a pure read: the first buffer is consumed (as a caller that copies it to a socket does),
+		// partly and then fully, and a second serialisation gives the same bytes
+		first := cont.BytesBuffer()
+		firstBytes := append([]byte{}, first.Bytes()...)
+		first.Next(len(firstBytes) / 2)
+		mid := append([]byte{}, cont.BytesBuffer().Bytes()...)
+		io.Copy(io.Discard, first)
+		out = append([]byte{}, cont.BytesBuffer().Bytes()...)
+		if !bytes.Equal(firstBytes, out) || !bytes.Equal(mid, out) {
+			c.Report("sets/serialise-twice-differs/"+cls, fmt.Sprintf("serialising the same container again after the first buffer was consumed gives %d / %d bytes instead of %d", len(mid), len(out), len(firstBytes)), cas)
+			out = firstBytes
+		}
 		for t, v := range perTag {
 			if !bytes.Equal(cont.GetBytes(t), v) {
 				c.Report("sets/get-before-serialise/"+cls, fmt.Sprintf("GetBytes(%d) on the container differs from what was set", t), cas)
